@@ -1033,3 +1033,57 @@ func storesToStruct(fn *ssa.Function, st types.Type) bool {
 	}
 	return false
 }
+
+// assertsAt discharges `assert L: e at "<call text>"` clauses: the assertion must hold whenever control reaches a call
+// whose source text equals the anchor.
+func (e *Enc) assertsAt(call *ssa.Call) {
+	if e.ctr == nil || len(e.ctr.Asserts) == 0 || e.pass == 1 {
+		return
+	}
+	txt := e.w.exprTextAt(e.fn, call.Pos())
+	for _, a := range e.ctr.Asserts {
+		if a.At == "" || strings.Join(strings.Fields(a.At), " ") != txt {
+			continue
+		}
+		env := e.entryEnv()
+		env.st = e.st
+		env.old = e.entry
+		b := e.curBlock
+		idx := 0
+		for i, in := range b.Instrs {
+			if in == ssa.Instruction(call) {
+				idx = i
+			}
+		}
+		env.lookup = func(name string, st *State) (TV, bool) {
+			e.lookupIdx = idx
+			defer func() { e.lookupIdx = -1 }()
+			return e.lookupLocal(name, b, st)
+		}
+		t, err := e.evalBool(a.E, env)
+		name := "assert:" + a.Label
+		if err != nil {
+			e.contractError(name, err)
+			continue
+		}
+		e.assertHit[a.Label]++
+		if e.assertHit[a.Label] > 1 {
+			name = fmt.Sprintf("%s#%d", name, e.assertHit[a.Label])
+		}
+		o := e.addObl("assert", name, a.Label, e.at[b], t)
+		o.Pos = e.w.fset.Position(call.Pos())
+		e.assume(t)
+	}
+}
+
+// missingAsserts reports assert clauses whose anchor was not found.
+func (e *Enc) missingAsserts() {
+	if e.ctr == nil {
+		return
+	}
+	for _, a := range e.ctr.Asserts {
+		if e.assertHit[a.Label] == 0 {
+			e.contractError("assert:"+a.Label, fmt.Errorf("anchor %q not found in the function body", a.At))
+		}
+	}
+}
